@@ -109,6 +109,11 @@ def seqOk : Class → Nat → Bool
   | .bind2, s => decide (s < 2^63) && decide ((s / 2^38) % 2 = 0) && decide (2^32 - 2 ≤ s % 2^32)
   | _, _ => true
 
+/-- the class as the engine run of signWitnessTx treats it: a binding output whose previous transaction sits at a height
+    ≥ the MASSIP-2 warm-up height (`forks.EnforceMASSIP0002WarmUp(prevHeight)`) is run under ScriptMASSip2 -/
+def Class.atHeight (warm : Nat) (c : Class) (prevHeight : Nat) : Class :=
+  if c = .bind ∧ warm ≤ prevHeight then .bind2 else c
+
 /-- the consensus script engine and the signature hash, abstractly -/
 structure Engine (C : Crypto) (A : Type) where
   /-- digest signed for input i (script code = redeem script of pk, amount of the previous output) -/
